@@ -11,10 +11,10 @@ pub fn prop() -> Prop {
     Prop {
         id: "C20",
         level: "model_checking",
-        rule: "the real jawk binary built from the working tree, spawned with pipes: 18 inputs (clean, noisy, junk words and broken literals between values, truncated tail, empty; 3000 rows, one 70 KB row, 1500 diagnostics, a long clean stream with a truncated tail - output beyond every stdout buffer) x 4 --on-error policies x 24 configurations (11 valid pipelines, two with --skip/--take at the edge of the 64-bit range, incl. options unrelated to error handling such as --only-objects-and-arrays, --unique, cache size, styles, split+group; 11 classes of invalid configuration, missing input file, file argument) x stdout in {pipe, pipe whose reader is gone (EPIPE), /dev/full} x row separator with/without newline; all combinations; non-trivial = the run produces output or must fail; distinct by construction; inputs that cannot be read: /proc/self/mem as a file argument after a readable file, a directory as the standard input; the version and help requests (long and short, alone and next to other options) and four usage errors",
+        rule: "the real jawk binary built from the working tree, spawned with pipes: 18 inputs (clean, noisy, junk words and broken literals between values, truncated tail, empty; 3000 rows, one 70 KB row, 1500 diagnostics, a long clean stream with a truncated tail - output beyond every stdout buffer) x 4 --on-error policies x 24 configurations (11 valid pipelines, two with --skip/--take at the edge of the 64-bit range, incl. options unrelated to error handling such as --only-objects-and-arrays, --unique, cache size, styles, split+group; 11 classes of invalid configuration, missing input file, file argument; every arrangement of <=3 file arguments over {readable, missing} naming a missing one, alone, with --merge and with --take 1: must fail whatever the library run says) x stdout in {pipe, pipe whose reader is gone (EPIPE), /dev/full} x row separator with/without newline; all combinations; non-trivial = the run produces output or must fail; distinct by construction; inputs that cannot be read: /proc/self/mem as a file argument after a readable file, a directory as the standard input; the version and help requests (long and short, alone and next to other options) and four usage errors",
         explanation: "every combination is executed as a child process and compared with the in-process run of the same arguments: stdout = exactly the in-process stdout sink, under --on-error=stderr the diagnostics = exactly the in-process stderr sink and none on stdout, exit status 0 iff the in-process Result is Ok and stdout accepted every byte, otherwise non-zero with a non-empty stderr",
         assumptions: a,
-        guards: vec!["file-name-that-is-not-text", "version-and-help", "unreadable-input", "output-beyond-every-buffer", "exit-nonzero-on-config-error", "exit-nonzero-on-full-stdout", "epipe", "stderr-policy-diagnostics", "unterminated-buffer-flush", "panic-policy-fails", "missing-file"],
+        guards: vec!["missing-file-in-every-position", "file-name-that-is-not-text", "version-and-help", "unreadable-input", "output-beyond-every-buffer", "exit-nonzero-on-config-error", "exit-nonzero-on-full-stdout", "epipe", "stderr-policy-diagnostics", "unterminated-buffer-flush", "panic-policy-fails", "missing-file"],
         budget_s: (100, 900),
         single_worker: false,
         run,
@@ -103,7 +103,7 @@ fn run(ctx: &mut Ctx) {
                     if !sep_nl {
                         args.push("--row-seperator=;".into());
                     }
-                    one(ctx, &bin, &args, input.as_bytes(), None, &format!("config {cname} policy {policy} sep_newline {sep_nl}"), valid, policy, ii);
+                    one(ctx, &bin, &args, input.as_bytes(), None, &format!("config {cname} policy {policy} sep_newline {sep_nl}"), valid, policy, ii, false);
                 }
             }
             // file arguments: an existing file, and a missing one after an existing one
@@ -114,10 +114,28 @@ fn run(ctx: &mut Ctx) {
             std::fs::write(&f1, input.as_bytes()).unwrap();
             let missing = d.join("does-not-exist.json");
             let a1 = vec![format!("--on-error={policy}"), f1.to_string_lossy().into_owned()];
-            one(ctx, &bin, &a1, b"\"stdin unused\"", Some(&a1), &format!("file argument policy {policy}"), true, policy, ii);
+            one(ctx, &bin, &a1, b"\"stdin unused\"", Some(&a1), &format!("file argument policy {policy}"), true, policy, ii, false);
             let a2 = vec![format!("--on-error={policy}"), f1.to_string_lossy().into_owned(), missing.to_string_lossy().into_owned()];
             ctx.guard("missing-file");
-            one(ctx, &bin, &a2, b"1", Some(&a2), &format!("missing file policy {policy}"), true, policy, ii);
+            one(ctx, &bin, &a2, b"1", Some(&a2), &format!("missing file policy {policy}"), true, policy, ii, true);
+            // every arrangement of <=3 file arguments over {readable, missing} that names a missing one: the run must
+            // fail whatever comes before or after the file that cannot be opened (decided without the library run)
+            if ii < 4 {
+                let (g, m) = (f1.to_string_lossy().into_owned(), missing.to_string_lossy().into_owned());
+                let mut arrangements: Vec<Vec<usize>> = Vec::new();
+                crate::explore::seqs_upto(2, 3, |s| if s.contains(&1) { arrangements.push(s.to_vec()) });
+                for arr in arrangements {
+                    for extra in [None, Some("--merge"), Some("--take=1")] {
+                        let mut a = vec![format!("--on-error={policy}")];
+                        a.extend(extra.iter().map(|s| s.to_string()));
+                        a.extend(arr.iter().map(|k| if *k == 0 { g.clone() } else { m.clone() }));
+                        // with --take 1 a run may stop before it reaches a later file
+                        let reaches = extra != Some("--take=1") || arr[0] == 1;
+                        ctx.guard("missing-file-in-every-position");
+                        one(ctx, &bin, &a, b"1", Some(&a), &format!("files {arr:?} (1 = missing) {extra:?} policy {policy}"), true, policy, ii, reaches);
+                    }
+                }
+            }
             // a file whose NAME is not valid UTF-8 (file names are bytes): a readable input like any other
             {
                 use std::os::unix::ffi::OsStrExt;
@@ -144,7 +162,7 @@ fn run(ctx: &mut Ctx) {
             // whose every read fails (it is a directory)
             let a3 = vec![format!("--on-error={policy}"), f1.to_string_lossy().into_owned(), "/proc/self/mem".to_string()];
             ctx.guard("unreadable-input");
-            one(ctx, &bin, &a3, b"1", Some(&a3), &format!("unreadable file policy {policy}"), true, policy, ii);
+            one(ctx, &bin, &a3, b"1", Some(&a3), &format!("unreadable file policy {policy}"), true, policy, ii, true);
             let _ = std::fs::remove_file(&f1);
             for extra in [vec![], vec!["--select=.=v".to_string()], vec!["--merge".to_string()]] {
                 let mut a4 = vec![format!("--on-error={policy}")];
@@ -230,7 +248,7 @@ fn run(ctx: &mut Ctx) {
 }
 
 #[allow(clippy::too_many_arguments)]
-fn one(ctx: &mut Ctx, bin: &str, args: &[String], input: &[u8], inproc_args: Option<&Vec<String>>, what: &str, valid: bool, policy: &str, ii: usize) {
+fn one(ctx: &mut Ctx, bin: &str, args: &[String], input: &[u8], inproc_args: Option<&Vec<String>>, what: &str, valid: bool, policy: &str, ii: usize, names_unreadable_input: bool) {
     // the in-process reference run
     let rcase = Case { args: inproc_args.cloned().unwrap_or_else(|| args.to_vec()), input: Input::Stdin(input.to_vec()), rplan: Default::default(), wplan: Default::default() };
     let r = ctx.run(&rcase);
@@ -270,12 +288,17 @@ fn one(ctx: &mut Ctx, bin: &str, args: &[String], input: &[u8], inproc_args: Opt
             fail(ctx, "zero-exit-on-malformed-input-under-panic", "a non-zero exit status (the input is not a clean JSON stream)".into());
             continue;
         }
+        // likewise: a run that names an input it cannot open or read must fail
+        if names_unreadable_input && c.code == Some(0) {
+            fail(ctx, "zero-exit-although-an-input-could-not-be-read", "a non-zero exit status (an input file cannot be opened or read)".into());
+            continue;
+        }
         // likewise independent of the library run: a configuration of a class known to be invalid must fail
         if !valid && c.code == Some(0) {
             fail(ctx, "zero-exit-on-invalid-configuration", "a non-zero exit status (the configuration is invalid)".into());
             continue;
         }
-        let must_succeed = ref_ok && all_accepted && !must_fail_input && valid;
+        let must_succeed = ref_ok && all_accepted && !must_fail_input && valid && !names_unreadable_input;
         if c.signal.is_some() {
             fail(ctx, "killed-by-signal", "a normal exit".into());
             continue;
